@@ -88,9 +88,13 @@ fn parse_res(text: &str, mode: u8, cmp: Option<&Board>) -> String {
         _ => text.parse::<Board>(),
     });
     match r {
-        Some(Ok(b)) => format!("{{\"k\":\"ok\",\"err\":\"\",\"eq\":{},\"st\":{}}}", cmp.map_or(false, |c| *c == b), proj(&b)),
-        Some(Err(e)) => format!("{{\"k\":\"err\",\"err\":\"{:?}\",\"eq\":false,\"st\":{}}}", e, proj_none()),
-        None => format!("{{\"k\":\"panic\",\"err\":\"\",\"eq\":false,\"st\":{}}}", proj_none()),
+        Some(Ok(b)) => {
+            // hash of the same position obtained through the builder (another route, C10)
+            let hb = guard(|| BoardBuilder::from_board(&b).build().map(|x| format!("{:016x}", x.hash())).unwrap_or_else(|_| "rebuild-failed".into())).unwrap_or_else(|| "panic".into());
+            format!("{{\"k\":\"ok\",\"err\":\"\",\"eq\":{},\"hb\":\"{}\",\"st\":{}}}", cmp.map_or(false, |c| *c == b), hb, proj(&b))
+        }
+        Some(Err(e)) => format!("{{\"k\":\"err\",\"err\":\"{:?}\",\"eq\":false,\"hb\":\"\",\"st\":{}}}", e, proj_none()),
+        None => format!("{{\"k\":\"panic\",\"err\":\"\",\"eq\":false,\"hb\":\"\",\"st\":{}}}", proj_none()),
     }
 }
 
@@ -593,6 +597,38 @@ pub fn run_parse(args: &Args) {
                         f[fi] = rep;
                         parse_event(&mut sh, "field", &f.join(" "), &base, fi as i32);
                     }
+                }
+            }
+            // castling fields made from the rooks actually on the back ranks: every single rook letter, pairs on one wing,
+            // the king's own file, all rook letters at once
+            if shredder {
+                let mut cands: Vec<String> = vec![];
+                for &c in &Color::ALL {
+                    let br = Rank::First.relative_to(c);
+                    let up = |f: File| { let ch = FCH[f as usize]; if c == Color::White { ch.to_ascii_uppercase() } else { ch } };
+                    let rooks: Vec<File> = File::ALL.iter().copied().filter(|&f| bb.square(Square::new(f, br)) == Some((Piece::Rook, c))).collect();
+                    for &f in &rooks {
+                        cands.push(up(f).to_string());
+                        for &g in &rooks {
+                            if f != g {
+                                cands.push(format!("{}{}", up(f), up(g)));
+                            }
+                        }
+                    }
+                    if let Some(k) = Square::ALL.iter().copied().find(|&s| bb.square(s) == Some((Piece::King, c))) {
+                        cands.push(up(k.file()).to_string());
+                        if let Some(&f) = rooks.first() {
+                            cands.push(format!("{}{}", up(k.file()), up(f)));
+                        }
+                    }
+                    if rooks.len() > 2 {
+                        cands.push(rooks.iter().map(|&f| up(f)).collect());
+                    }
+                }
+                for rep in cands {
+                    let mut f: Vec<String> = fields.iter().map(|s| s.to_string()).collect();
+                    f[2] = rep;
+                    parse_event(&mut sh, "field", &f.join(" "), &base, 2);
                 }
             }
             // truncation and extension
